@@ -14,6 +14,7 @@ import Driver.C16
 import Driver.C17
 import Driver.C18
 import Driver.C19
+import Driver.C20
 /-
 siot-model: line-protocol driver. Reads "<PROP> <case...> => <impl observation>" lines on stdin,
 replays each case on the Lean model and prints
@@ -45,6 +46,7 @@ def dispatch (prop : String) (args : List String) (impl : String) : Verdict :=
   | "C17" => C17.handle args impl
   | "C18" => C18.handle args impl
   | "C19" => C19.handle args impl
+  | "C20" => C20.handle args impl
   | _ => bad ("unknown property " ++ prop)
 
 def processLine (line : String) : String :=
